@@ -194,6 +194,15 @@ def fixed_scenarios(tabs):
         sc.events += [(10, ("task", 100, "x", 1, 0)), (10, ("task", 100, "e", 1, 0))]
         sc.events += [(10, ("sspop", 100, val, po))] * n
         out.append(sc)
+    # label length limit of task_type_create (MAX_PCF_LABEL)
+    for n in (511, 512):
+        sc = Scenario()
+        sc.model = "V"
+        sc.note = "label-len-%d" % n
+        sc.procs = [dict(pid=10, appid=1, rank=None, threads=[100], labels={1: b"L" * n})]
+        sc.events = [(10, ("type", 100, 1, b"L" * n)), (10, ("create", 100, "c", 1, 1)),
+                     (10, ("task", 100, "x", 1, 0)), (10, ("task", 100, "e", 1, 0))]
+        out.append(sc)
     return out
 
 
